@@ -77,8 +77,14 @@ def check_scenario(case, out):
             if snap != prev:
                 v.append(('C14', 'rejected %s changed state' % op, k))
                 v.append(('C09', 'rejected %s changed state' % op, k))
-            if op == 'withdraw' and st.get('_must_succeed'):
-                v.append(('C20', 'withdrawal of %s LP with entitlement >= r_i/1e18+2 failed: %s' % (st['amount'], res.get('err', '')[-160:]), k))
+            if op == 'withdraw' and 'via_token' not in st:
+                pi = st['pair']
+                r_ = cx.reserves(prev, pi)
+                s_ = cx.supply(prev, pi)
+                a_ = int(st['amount'])
+                held = cx.bal(prev, st['sender'], 'lp%d' % pi)
+                if s_ > 0 and 0 < a_ <= held and all(rr * a_ * D >= (rr + 2 * D) * s_ for rr in r_):
+                    v.append(('C20', 'withdrawal of %d LP (supply %d, reserves %s: entitlement >= r_i/1e18+2 on both assets) failed: %s' % (a_, s_, r_, res.get('err', '')[-160:]), k))
             prev = snap
             continue
         if op in ('simulate', 'reverse_simulate'):
@@ -268,6 +274,20 @@ def gen_scenario(rng):
     if rng.random() < 0.15:
         steps.append(dict(op='provide', pair=0, sender=rng.choice(['bob', 'mallory']), amounts=[str(r0), str(r1)]))
     steps.append(dict(op='provide', pair=0, sender='alice', amounts=[str(r0), str(r1)]))
+    shape = rng.random()
+    if shape < 0.12:
+        # small supply, then a large donation: reserve/supply ratio far above 1e18
+        r0, r1 = rng.randrange(500, 5000), rng.randrange(500, 5000)
+        steps[-1]['amounts'] = [str(r0), str(r1)]
+        steps.append(dict(op='donate', pair=0, sender='mallory', idx=rng.randrange(2), amount=str(rng.choice([10 ** 21, 10 ** 24, 10 ** 27]))))
+        steps.append(dict(op='withdraw', pair=0, sender='alice', amount=str(max(1, isqrt(r0 * r1) // rng.choice([2, 3, 10])))))
+    elif shape < 0.24:
+        # reserves near the 2^128/1e18 product ceiling, then a donation on top
+        r0 = r1 = 3 * 10 ** 29
+        steps[-1]['amounts'] = [str(10 ** 18), str(10 ** 18)]
+        steps.append(dict(op='provide', pair=0, sender='alice', amounts=[str(r0), str(r1)]))
+        steps.append(dict(op='donate', pair=0, sender='mallory', idx=rng.randrange(2), amount=str(10 ** 29)))
+        steps.append(dict(op='withdraw', pair=0, sender='alice', amount=str(10 ** 29)))
     est = [r0, r1]
     sup = isqrt(r0 * r1)
     n = rng.randrange(3, 8)
